@@ -326,11 +326,24 @@ def xz_bytes(data, preset=6, check=lzma.CHECK_CRC64, dict_size=None):
     return lzma.compress(data, format=lzma.FORMAT_XZ, check=check, preset=preset)
 
 
-def tar_bytes(members, fmt=tarfile.GNU_FORMAT):
-    """members: list of (name, data, mtime). Returns tar bytes."""
+def tar_bytes(members, fmt=tarfile.GNU_FORMAT, other_entries=False):
+    """members: list of (name, data, mtime). Returns tar bytes. With other_entries the archive also holds what `tar -cf x.tar
+    dir` puts there: a directory entry before each member's directory, and a symbolic-link and an empty-file entry."""
     bio = io.BytesIO()
     with tarfile.open(fileobj=bio, mode="w", format=fmt) as tf:
-        for name, data, mtime in members:
+        seen = set()
+        for k_, (name, data, mtime) in enumerate(members):
+            if other_entries:
+                dn = name.rsplit("/", 1)[0] if "/" in name else None
+                if dn and dn not in seen:
+                    seen.add(dn)
+                    di = tarfile.TarInfo(dn)
+                    di.type, di.mode, di.mtime = tarfile.DIRTYPE, 0o755, mtime
+                    tf.addfile(di)
+                if k_ == 0:
+                    li = tarfile.TarInfo((dn + "/" if dn else "") + "current")
+                    li.type, li.linkname, li.mtime = tarfile.SYMTYPE, "elsewhere.log", mtime
+                    tf.addfile(li)
             ti = tarfile.TarInfo(name)
             ti.size = len(data)
             ti.mtime = mtime
